@@ -23,8 +23,12 @@ Prelude == <<
   [k |-> "macro", n |-> "mn", np |-> 1, body |-> <<[k |-> "invoke", n |-> "m1", args |-> <<Par(1)>>], D(1, <<Ref("KA")>>)>>],
   [k |-> "macro", n |-> "ms", np |-> 1, body |-> <<D(1, <<Par(1)>>)>>],
   [k |-> "macro", n |-> "m9", np |-> 9, body |-> <<D(1, <<Par(1), Par(2), Par(3), Par(4), Par(5), Par(6), Par(7), Par(8), Par(9)>>)>>],
-  [k |-> "macro", n |-> "mr", np |-> 1, body |-> <<[k |-> "repeat", cnt |-> 2, body |-> <<D(1, <<Par(1)>>)>>]>>]
+  [k |-> "macro", n |-> "mr", np |-> 1, body |-> <<[k |-> "repeat", cnt |-> 2, body |-> <<D(1, <<Par(1)>>)>>]>>],
+  \* macros whose arguments are whole statements (two words separated by a blank)
+  [k |-> "macro", n |-> "mx", np |-> 1, body |-> <<[k |-> "pstmt", i |-> 1], [k |-> "pstmt", i |-> 1]>>],
+  [k |-> "macro", n |-> "my", np |-> 2, body |-> <<[k |-> "pstmt", i |-> 2], [k |-> "pstmt", i |-> 1]>>]
 >>
+StmtArg(st) == [k |-> "stmt", s |-> st]
 
 Args1 == {Num(7), Num(255), Ref("KA"), Ref("KC"), Sum(Ref("KA"), Num(1)), Num(-1)}
 Body ==
@@ -37,6 +41,8 @@ Body ==
   \cup {[k |-> "invoke", n |-> "m2", args |-> <<a, b>>] : a \in {Num(1), Ref("KA")}, b \in {Num(2), Ref("KC"), Num(250)}}
   \cup {[k |-> "invoke", n |-> "ms", args |-> <<Str(b)>>] : b \in {<<72, 105>>, <<97, 44, 32, 98>>, <<40, 120, 41>>}}
   \cup {[k |-> "invoke", n |-> "m9", args |-> <<Num(1), Num(2), Num(3), Num(4), Num(5), Num(6), Num(7), Num(8), Num(9)>>]}
+  \cup {[k |-> "invoke", n |-> "mx", args |-> <<StmtArg(D(1, <<Num(7)>>))>>], [k |-> "invoke", n |-> "mx", args |-> <<StmtArg(D(2, <<Ref("KB")>>))>>],
+        [k |-> "invoke", n |-> "my", args |-> <<StmtArg(D(1, <<Num(1)>>)), StmtArg(D(4, <<Sum(Ref("KA"), Num(2))>>))>>]}
   \cup {[k |-> "repeat", cnt |-> c, body |-> <<D(1, <<Num(170)>>)>>] : c \in {1, 2, 3, 255}}
   \cup {[k |-> "repeat", cnt |-> 2, body |-> <<D(2, <<Ref("KB")>>), [k |-> "invoke", n |-> "m0", args |-> <<>>]>>]}
   \cup {[k |-> "label", n |-> x] : x \in {"la", "lb"}}
